@@ -23,21 +23,25 @@ RMaxSeq(q) == LET RECURSIVE go(_, _)
 \* largest relative error of the polymorphic entries 1..n-1 (sfs is the full data vector, index b+1)
 RelErr(sfs, exact, n) == RMaxSeq([b \in 1..(n - 1) |-> RDiv(RAbs(RSub(sfs[b + 1], exact[b])), RAbs(exact[b]))])
 
+\* TLC evaluates LET definitions and operator arguments lazily and, inside an action, re-evaluates them at every reference.
+\* A variable bound by a set constructor is bound to an evaluated value: UNION {G(x) : x \in {e}} evaluates e once.
+\* The expensive tables (exact spectrum, error per run) are bound that way.
+FCoalJudge(runs, errs) ==
+        F("WithinOnePointFivePercentAtTenthOfDefaultStep",
+             \A q \in 1..Len(runs) : RLeq(runs[q].tf, "1/10000") => RLeq(errs[q], Bound)) \cup
+        \* the error shrinks in proportion to the time step: err(tf2) <= (tf2/tf1 + slack) * err(tf1) + floor
+        F("ErrorProportionalToTimeStep",
+             \A q \in 1..(Len(runs) - 1) :
+                 RLeq(errs[q + 1], RAdd(RMul(RAdd(RDiv(runs[q + 1].tf, runs[q].tf), Slack), errs[q]), Floor)))
 FCoal(r) ==
     LET n == r.in.n
-        exact == ExpectedSFS(n, r.in.hist, r.in.nuanc, r.in.E, r.in.theta)
         runs == r.out.runs
-        ok(q) == Len(runs[q].sfs) = n + 1 /\ AllNum(runs[q].sfs)
-        err(q) == RelErr(runs[q].sfs, exact, n)
+        allok == \A q \in 1..Len(runs) : Len(runs[q].sfs) = n + 1 /\ AllNum(runs[q].sfs)
     IN  F("TableSane", TableOK(n, r.in.hist, r.in.E)) \cup
-        F("SpectrumWellFormed", \A q \in 1..Len(runs) : ok(q)) \cup
-        (IF \A q \in 1..Len(runs) : ok(q)
-         THEN F("WithinOnePointFivePercentAtTenthOfDefaultStep",
-                  \A q \in 1..Len(runs) : RLeq(runs[q].tf, "1/10000") => RLeq(err(q), Bound)) \cup
-              \* the error shrinks in proportion to the time step: err(tf2) <= (tf2/tf1 + slack) * err(tf1) + floor
-              F("ErrorProportionalToTimeStep",
-                  \A q \in 1..(Len(runs) - 1) :
-                      RLeq(err(q + 1), RAdd(RMul(RAdd(RDiv(runs[q + 1].tf, runs[q].tf), Slack), err(q)), Floor)))
+        F("SpectrumWellFormed", allok) \cup
+        (IF allok
+         THEN UNION { UNION { FCoalJudge(runs, errs) : errs \in {RForce([q \in 1..Len(runs) |-> RelErr(runs[q].sfs, exact, n)])} }
+                      : exact \in {ExpectedSFS(n, r.in.hist, r.in.nuanc, r.in.E, r.in.theta)} }
          ELSE {})
 
 Failed(r) ==
